@@ -278,6 +278,9 @@ class Check:
 
     def violation(self, key, what, replay=None, no_input=False):
         """key identifies call site + failure signature; known findings are matched on it (regex allowed)"""
+        if os.environ.get("VERIF_DUMP_KEYS"):  # maintainer saturation runs: every violation call, known or not (see mkknown.py)
+            with open(os.environ["VERIF_DUMP_KEYS"], "a") as f:
+                f.write(json.dumps({"property": self.pid, "key": key, "what": what[:400]}) + "\n")
         for k in self.known:
             if re.fullmatch(k["key"], key):
                 self.known_hits.setdefault(k["key"], [k, 0])[1] += 1
